@@ -1,6 +1,7 @@
 package main
 
 import (
+	"regexp"
 	"encoding/json"
 	"flag"
 	"fmt"
@@ -78,6 +79,23 @@ func loadBaseline(prop string) map[string]bool {
 	}
 	return out
 }
+
+var pathSuffixRe = regexp.MustCompile(`(@return\d+|\.back\d+|~\d+|#\d+$)`)
+
+// clauseKey: the identity of the contract clause (or rule) behind an obligation, without the path it was
+// generated on (which return, which back edge, which call-site ordinal).
+func clauseKey(id string) string {
+	prev := ""
+	for prev != id {
+		prev = id
+		id = pathSuffixRe.ReplaceAllString(id, "")
+	}
+	return id
+}
+
+// siteKinds: obligations that belong to one syntactic site of the code rather than to a contract clause.
+var siteKinds = map[string]bool{"nil": true, "index": true, "slice": true, "makelen": true, "mapnilwrite": true, "typeassert": true,
+	"divzero": true, "shift": true, "panic": true, "alloc": true}
 
 func hasProp(l []string, p string) bool {
 	for _, x := range l {
@@ -185,7 +203,7 @@ func obligationServes(p *Program, prop string, pc *PropConfig, r *FuncResult, o 
 	if hasProp(fprops, prop) {
 		// lock-discipline obligations belong to the properties that are about concurrency / failure atomicity
 		if strings.HasPrefix(o.Kind, "lock.") || o.Kind == "typeinv" {
-			return prop == "C13" || prop == "C08" || prop == "C09"
+			return prop == "C13" || prop == "C08" || prop == "C09" || prop == "C01" || prop == "C11"
 		}
 		if o.Kind == "gorecover" {
 			return prop == "C07" || prop == "C13"
@@ -290,16 +308,27 @@ func cmdCheck(args []string) int {
 		results = append(results, p.VerifyFunction(id))
 	}
 	// keep only obligations that serve this property
+	// Obligations of the selected functions that serve other properties are assumed by the later obligations of
+	// the same function (assume-after-assert). They are solved too (marked Unserved): when one of them fails,
+	// the served obligations that assumed it are decided again without that assumption.
 	total := 0
 	for _, r := range results {
 		var keep []*Obligation
+		nServed := 0
 		for _, o := range r.Obls {
 			if obligationServes(p, prop, pc, r, o, sweep) {
 				keep = append(keep, o)
+				nServed++
+			} else if o.Kind != "cover" && o.AssumeIdx >= 0 {
+				o.Unserved = true
+				keep = append(keep, o)
 			}
 		}
+		if nServed == 0 {
+			keep = nil
+		}
 		r.Obls = keep
-		total += len(keep)
+		total += nServed
 	}
 	timeout := 20 * time.Second
 	both := false
@@ -322,7 +351,61 @@ func cmdCheck(args []string) int {
 	defer os.RemoveAll(out)
 	SolveAll(results, SolveOptions{Timeout: timeout, Both: both, OutDir: out, Workers: 5, Known: knownIDs})
 
+	// second round: served obligations that relied on an assumption which is no longer established
+	var again []*FuncResult
+	for _, r := range results {
+		drop := map[int]bool{}
+		var why []string
+		for _, o := range r.Obls {
+			if o.Unserved && !o.OK() && !knownIDs[o.ID] && o.AssumeIdx >= 0 {
+				drop[o.AssumeIdx] = true
+				why = append(why, strings.TrimPrefix(o.ID, r.ID+"#"))
+			}
+		}
+		if len(drop) == 0 {
+			continue
+		}
+		redo := false
+		for _, o := range r.Obls {
+			if o.Unserved || !o.OK() || o.Result.Solver == "trivial" || knownIDs[o.ID] {
+				continue
+			}
+			uses := false
+			for i := range drop {
+				if i < o.NAssume {
+					uses = true
+				}
+			}
+			if !uses {
+				continue
+			}
+			o.Drop = drop
+			o.Result = SolveResult{}
+			o.Note = "decided without the assumption(s) left by " + strings.Join(why, ", ") + " (obligations of other properties in the same function that are no longer discharged)"
+			redo = true
+		}
+		if redo {
+			again = append(again, r)
+		}
+	}
+	if len(again) > 0 {
+		SolveAll(again, SolveOptions{Timeout: timeout, Both: both, OutDir: out, Workers: 5, Known: knownIDs})
+	}
+	for _, r := range results {
+		var keep []*Obligation
+		for _, o := range r.Obls {
+			if !o.Unserved {
+				keep = append(keep, o)
+			}
+		}
+		r.Obls = keep
+	}
+
 	baseline := loadBaseline(prop)
+	baselineKeys := map[string]bool{}
+	for id := range baseline {
+		baselineKeys[clauseKey(id)] = true
+	}
 	replayDir := filepath.Join(verifDir(), "replays", prop)
 	exit := 0
 	var nObl, nDis, nCover, nCoverOK, nViol, nUndec int
@@ -394,6 +477,10 @@ func cmdCheck(args []string) int {
 				continue
 			}
 			inBase := baseline != nil && baseline[o.ID]
+			if !inBase && baseline != nil && !siteKinds[o.Kind] && baselineKeys[clauseKey(o.ID)] {
+				// the same clause was discharged on every path of the recorded tree: a new path that fails it counts
+				inBase = true
+			}
 			isSat := o.Result.Status == "sat"
 			if !isSat && baseline != nil && !inBase {
 				// a failed proof of something never proved before is not a violation
@@ -419,6 +506,9 @@ func cmdCheck(args []string) int {
 			os.WriteFile(path, data, 0o644)
 			fmt.Printf("VIOLATION property=%s replay=%s%s\n", prop, path, suffix)
 			fmt.Printf("  obligation %s (%s) at %s: %s [%s by %s]\n", o.ID, o.Kind, o.Pos, o.Desc, o.Result.Status, o.Result.Solver)
+			if o.Note != "" {
+				fmt.Printf("    %s\n", o.Note)
+			}
 			violations = append(violations, o.ID)
 			exit = 1
 		}
